@@ -26,7 +26,12 @@ import (
 // ---- wire-string explorer with process isolation (DESIGN 3.3): C09 and C10 ----
 
 func init() {
-	checks["C09"] = func(r *ev.Run, th bool) { superviseDecode(r, "C09", th) }
+	checks["C09"] = func(r *ev.Run, th bool) {
+		superviseDecode(r, "C09", th)
+		// decoders called repeatedly on ONE receiver (valid bytes, sizes along ladder patterns; receivers with spare list
+		// capacity): the same no-panic requirement; runs in this process, panics are recovered per call
+		c15Ladders(r, "C09")
+	}
 	checks["C10"] = func(r *ev.Run, th bool) { superviseDecode(r, "C10", th) }
 	workers["decode"] = decodeWorker
 	wireChecks["C09"] = func(t *rm.Type, w []byte) *ev.Violation { return hostileOne("C09", t, nil, false, w) }
